@@ -35,6 +35,7 @@ struct objinfo
     no::base* b;
     char kind;
     std::string name;
+    std::string group; // key of the group it was declared in
 };
 struct ctx
 {
@@ -44,13 +45,14 @@ struct ctx
     // references the "program" keeps: every group& and option& a call handed out, by name
     std::map<std::string, no::group*> held_groups;
     std::map<std::string, declared> held_objs;
-    int id_of(no::base* b, char kind, const std::string& name)
+    unsigned ndefaults = 0;
+    int id_of(no::base* b, char kind, const std::string& name, const std::string& group)
     {
         auto it = ids.find(static_cast<const void*>(b));
         if (it != ids.end()) return it->second;
         int k = static_cast<int>(ids.size()) + 1;
         ids.emplace(static_cast<const void*>(b), k);
-        objs.push_back({ b, kind, name });
+        objs.push_back({ b, kind, name, group });
         return k;
     }
     int gid_of(const no::group* g)
@@ -68,34 +70,58 @@ std::string other(const std::exception& e)
     return std::string("OTHER(") + typeid(e).name() + ")";
 }
 
-declared declare(ctx& c, const std::string& g, char k, const std::string& n)
+// Every string argument is handed to the library as a heap object that dies right after the call: an
+// implementation that kept a reference (or a view) to an argument instead of a copy is then a heap-use-after-free.
+using hstr = std::unique_ptr<const std::string>;
+hstr heap(const std::string& s) { return std::make_unique<const std::string>(s); }
+
+char lower(char k) { return static_cast<char>(k | 0x20); }
+std::string gkey(const std::string& g) { return (g == "*" || g == "@") ? std::string("__default") : vh::unhex(g); }
+std::string okey(const std::string& g, char k, const std::string& n) { return gkey(g) + std::string(1, '\0') + lower(k) + n; }
+
+// <group>.option(n) / multi_option(n) / toggle(n); an upper-case kind letter passes a description as well
+template <typename G>
+declared declare_in(G& grp, char k, const std::string& n)
 {
     declared d;
-    if (g == "*")
+    hstr a = heap(n), desc = heap("a description, with {} and %s");
+    bool with_desc = k < 'a';
+    switch (lower(k))
     {
-        if (k == 'o') d.o = &c.p->option(n);
-        else if (k == 'm') d.m = &c.p->multi_option(n);
-        else d.t = &c.p->toggle(n);
-    }
-    else
-    {
-        no::group& grp = c.p->group(vh::unhex(g));
-        c.held_groups[vh::unhex(g)] = &grp;
-        if (k == 'o') d.o = &grp.option(n);
-        else if (k == 'm') d.m = &grp.multi_option(n);
-        else d.t = &grp.toggle(n);
+    case 'o': d.o = with_desc ? &grp.option(*a, *desc) : &grp.option(*a); break;
+    case 'm': d.m = with_desc ? &grp.multi_option(*a, *desc) : &grp.multi_option(*a); break;
+    default: d.t = with_desc ? &grp.toggle(*a, *desc) : &grp.toggle(*a); break;
     }
     return d;
+}
+
+declared declare(ctx& c, const std::string& g, char k, const std::string& n)
+{
+    if (g == "*") return declare_in(*c.p, k, n);       // parser.option(n)
+    if (g == "@") return declare_in(c.p->group(), k, n); // parser.group().option(n)
+    hstr gn = heap(vh::unhex(g));
+    no::group& grp = c.p->group(*gn);
+    c.held_groups[*gn] = &grp;
+    return declare_in(grp, k, n);
 }
 
 template <typename Opt>
 bool apply_setter(Opt* o, const std::string& f, const std::string& arg)
 {
     Opt* r = nullptr;
-    if (f == "s") r = &o->short_name(arg);
-    else if (f == "e") r = &o->env(arg);
-    else if (f == "m") r = &o->metavar(arg);
+    hstr a = heap(arg);
+    if (f == "s") r = &o->short_name(*a);
+    else if (f == "e") r = &o->env(*a);
+    else if (f == "m") r = &o->metavar(*a);
     return r == o;
+}
+
+// declarations a move target owns before it is assigned over / swapped: none of them may survive
+void populate(no::parser& q)
+{
+    q.option("a").short_name("x");
+    q.group("g1").toggle("b").short_name("a");
+    q.group("A2").multi_option("no-a");
 }
 
 void move_parser(ctx& c, const std::string& how)
@@ -111,6 +137,29 @@ void move_parser(ctx& c, const std::string& how)
         *q = std::move(*c.p);
         c.p = std::move(q);
     }
+    else if (how == "MB")
+    {
+        auto q = std::make_unique<no::parser>(); // every constructor argument defaulted
+        populate(*q);
+        *q = std::move(*c.p);
+        c.p = std::move(q);
+    }
+    else if (how == "MW")
+    {
+        auto q = std::make_unique<no::parser>("swapped");
+        populate(*q);
+        std::swap(*c.p, *q);
+        c.p = std::move(q);
+    }
+    else if (how == "MV")
+    {
+        std::vector<no::parser> v;
+        v.push_back(std::move(*c.p));
+        c.p.reset();
+        v.emplace_back("filler");
+        v.emplace_back("filler", "about"); // the vector has grown twice: the parser was relocated by its move constructor
+        c.p = std::make_unique<no::parser>(std::move(v.front()));
+    }
     else
     {
         no::parser tmp(std::move(*c.p)); // heap -> stack
@@ -119,15 +168,24 @@ void move_parser(ctx& c, const std::string& how)
     }
 }
 
-// "OK" / "USER" / "DEV" / OTHER(..) of one parse call
-std::string parse_kind(ctx& c, const std::vector<std::string>& args)
+// "OK" / "USER" / "DEV" / OTHER(..) of one parse call; both public overloads
+std::string parse_kind(ctx& c, const std::vector<std::string>& args, bool vec = false)
 {
-    std::vector<const char*> argv;
-    argv.push_back("app");
-    for (auto& a : args) argv.push_back(a.c_str());
     try
     {
-        c.p->parse(static_cast<int>(argv.size()), argv.data());
+        if (vec)
+        {
+            std::vector<no::user_input> in;
+            for (auto& a : args) in.emplace_back(a);
+            c.p->parse(in);
+        }
+        else
+        {
+            std::vector<const char*> argv;
+            argv.push_back("app");
+            for (auto& a : args) argv.push_back(a.c_str());
+            c.p->parse(static_cast<int>(argv.size()), argv.data());
+        }
         return "OK";
     }
     catch (const no::parser_error&) { return "DEV"; }
@@ -136,13 +194,13 @@ std::string parse_kind(ctx& c, const std::vector<std::string>& args)
 }
 
 // which objects a probe vector reached: those whose has_non_default() is set afterwards
-std::string probe(ctx& c, const std::vector<std::string>& args)
+std::string probe(ctx& c, const std::vector<std::string>& args, bool vec)
 {
-    std::string k = parse_kind(c, args);
+    std::string k = parse_kind(c, args, vec);
     if (k != "OK" && k != "USER") return k;
     std::string r;
     for (std::size_t i = 0; i < c.objs.size(); i++)
-        if (c.objs[i].b->has_non_default())
+        if (static_cast<const no::base*>(c.objs[i].b)->has_non_default())
         {
             if (!r.empty()) r += "+";
             r += std::to_string(i + 1);
@@ -157,20 +215,37 @@ std::vector<std::string> dedup(const std::vector<std::string>& l)
     return r;
 }
 
-std::string gkey(const std::string& g) { return g == "*" ? std::string("__default") : vh::unhex(g); }
-std::string okey(const std::string& g, char k, const std::string& n) { return gkey(g) + std::string(1, '\0') + k + n; }
-
 // the setter part of an operation on the object d (id already assigned): "OK<id>" / "DEVS<id>" / ...
-std::string set_on(const declared& d, int id, const std::string& f, const std::string& arg)
+std::string set_on(ctx& c, const declared& d, int id, const std::string& f, const std::string& arg)
 {
     try
     {
         bool same = true;
         if (f == "d")
         {
-            if (d.o) same = &d.o->default_value("d") == d.o;
-            else if (d.m) same = &d.m->default_value({ "d" }) == d.m;
-            else same = &d.t->default_value(true) == d.t;
+            // repeated defaults differ in value (and overload): has_default() is all the property is about
+            unsigned v = c.ndefaults++ % 4;
+            static const char* vals[] = { "d", "", "two words", "a default value that is longer than any small-string buffer" };
+            hstr a = heap(vals[v]);
+            if (d.o) same = &d.o->default_value(*a) == d.o;
+            else if (d.m)
+            {
+                auto l = std::make_unique<std::vector<std::string>>();
+                for (unsigned i = 0; i < v; i++) l->push_back(vals[i]);
+                same = &d.m->default_value(*l) == d.m;
+            }
+            else same = (v == 0 ? &d.t->default_value(true) : v == 1 ? &d.t->default_value(2) : &d.t->default_value(false)) == d.t;
+        }
+        else if (f == "o")
+        {
+            if (d.o) same = &d.o->optional() == d.o;
+            else if (d.m) same = &d.m->optional() == d.m;
+            else return "BADCASE";
+        }
+        else if (f == "r")
+        {
+            if (!d.t) return "BADCASE";
+            same = &d.t->allow_reverse() == d.t;
         }
         else if (d.o) same = apply_setter(d.o, f, arg);
         else if (d.m) same = apply_setter(d.m, f, arg);
@@ -183,10 +258,37 @@ std::string set_on(const declared& d, int id, const std::string& f, const std::s
     catch (const std::exception& e) { return other(e); }
 }
 
+// read-only paths: what the groups list through their const getters is exactly what the calls returned
+std::string const_paths(const ctx& c)
+{
+    for (auto& h : c.held_groups)
+    {
+        const no::group& g = *h.second;
+        std::map<std::string, const void*> want[3], got[3];
+        for (auto& o : c.objs)
+            if (o.group == h.first) want[o.kind == 'o' ? 0 : o.kind == 'm' ? 1 : 2][o.name] = o.b;
+        for (auto& e : g.get_options()) got[0][e.first] = static_cast<const no::base*>(&e.second);
+        for (auto& e : g.get_multi_options()) got[1][e.first] = static_cast<const no::base*>(&e.second);
+        for (auto& e : g.get_toggles()) got[2][e.first] = static_cast<const no::base*>(&e.second);
+        for (int i = 0; i < 3; i++) if (want[i] != got[i]) return " CONST-MISMATCH(group-maps)";
+        if (g.empty() != (got[0].empty() && got[1].empty() && got[2].empty())) return " CONST-MISMATCH(empty)";
+        if (h.first != "__default" && g.name() != h.first) return " CONST-MISMATCH(group-name)";
+    }
+    for (auto& o : c.objs) if (static_cast<const no::base*>(o.b)->name() != o.name) return " CONST-MISMATCH(name)";
+    return "";
+}
+
 std::string run_case(const std::vector<std::string>& w)
 {
     ctx c;
-    c.p = std::make_unique<no::parser>("app");
+    // every constructor form, default arguments included
+    switch (w.size() % 4)
+    {
+    case 0: c.p = std::make_unique<no::parser>(); break;
+    case 1: c.p = std::make_unique<no::parser>("app"); break;
+    case 2: c.p = std::make_unique<no::parser>(*heap("app"), *heap("about this program")); break;
+    default: c.p = std::make_unique<no::parser>(*heap("app"), *heap(""), *heap("the arguments")); break;
+    }
     std::vector<std::string> names, letters;
     for (auto& word : w)
     {
@@ -206,12 +308,13 @@ std::string run_case(const std::vector<std::string>& w)
     {
         auto f = vh::split_on(word, ':');
         std::string r;
-        if (f[0] == "G" && f.size() == 2)
+        if (f[0] == "G" && (f.size() == 2 || f.size() == 3))
         {
             try
             {
-                no::group* g = &c.p->group(vh::unhex(f[1]));
-                c.held_groups[vh::unhex(f[1])] = g;
+                hstr gn = heap(vh::unhex(f[1]));
+                no::group* g = f.size() == 3 ? &c.p->group(*gn, *heap(vh::unhex(f[2]))) : &c.p->group(*gn);
+                c.held_groups[*gn] = g;
                 r = "G" + std::to_string(c.gid_of(g));
             }
             catch (const no::parser_error&) { r = "DEV"; }
@@ -230,10 +333,10 @@ std::string run_case(const std::vector<std::string>& w)
             catch (const std::exception& e) { r = other(e); }
             if (ok)
             {
-                int id = c.id_of(d.b(), k, n);
+                int id = c.id_of(d.b(), lower(k), n, gkey(f[1]));
                 c.held_objs[okey(f[1], k, n)] = d;
                 r = "OK" + std::to_string(id);
-                if (f[0] == "S") r = set_on(d, id, f[4], f.size() == 6 ? vh::unhex(f[5]) : std::string());
+                if (f[0] == "S") r = set_on(c, d, id, f[4], f.size() == 6 ? vh::unhex(f[5]) : std::string());
             }
         }
         else if (f[0] == "HD" && f.size() >= 4)
@@ -248,22 +351,16 @@ std::string run_case(const std::vector<std::string>& w)
             {
                 declared d;
                 bool ok = false;
-                try
-                {
-                    if (k == 'o') d.o = &h->second->option(n);
-                    else if (k == 'm') d.m = &h->second->multi_option(n);
-                    else d.t = &h->second->toggle(n);
-                    ok = true;
-                }
+                try { d = declare_in(*h->second, k, n); ok = true; }
                 catch (const no::parser_error&) { r = "DEV"; }
                 catch (const no::parsing_error&) { r = "USER"; }
                 catch (const std::exception& e) { r = other(e); }
                 if (ok)
                 {
-                    int id = c.id_of(d.b(), k, n);
+                    int id = c.id_of(d.b(), lower(k), n, gkey(f[1]));
                     c.held_objs[okey(f[1], k, n)] = d;
                     r = "OK" + std::to_string(id);
-                    if (f.size() >= 5) r = set_on(d, id, f[4], f.size() == 6 ? vh::unhex(f[5]) : std::string());
+                    if (f.size() >= 5) r = set_on(c, d, id, f[4], f.size() == 6 ? vh::unhex(f[5]) : std::string());
                 }
             }
         }
@@ -274,25 +371,26 @@ std::string run_case(const std::vector<std::string>& w)
             if (h == c.held_objs.end())
                 r = "NOH";
             else
-                r = set_on(h->second, c.id_of(h->second.b(), f[2][0], vh::unhex(f[3])), f[4],
+                r = set_on(c, h->second, c.id_of(h->second.b(), lower(f[2][0]), vh::unhex(f[3]), gkey(f[1])), f[4],
                            f.size() == 6 ? vh::unhex(f[5]) : std::string());
         }
-        else if (f[0] == "MC" || f[0] == "MA" || f[0] == "MS")
+        else if (f[0] == "MC" || f[0] == "MA" || f[0] == "MS" || f[0] == "MV" || f[0] == "MW" || f[0] == "MB")
         {
             move_parser(c, f[0]);
             r = "MOVED";
         }
         else if (f[0] == "P")
         {
-            r = "P=" + parse_kind(c, {});
+            r = "P=" + parse_kind(c, {}, out.size() % 2 == 1);
         }
         else
             return "BADCASE";
+        if (r == "BADCASE") return r;
         out += r + " ";
     }
 
-    std::string fin = parse_kind(c, {});
-    out += "; F=" + fin;
+    std::string fin = parse_kind(c, {}), fin2 = parse_kind(c, {}, true);
+    out += "; F=" + (fin == fin2 ? fin : "OVERLOADS-DIFFER(" + fin + "," + fin2 + ")");
     if (fin == "DEV")
         out += " ; NOPROBE";
     else
@@ -304,9 +402,9 @@ std::string run_case(const std::vector<std::string>& w)
             std::string n = vh::unhex(hn);
             bool k1 = false; // known finding K1: --no-<t> also addresses the toggle <t>
             for (auto& o : c.objs) if (o.kind == 't' && "no-" + o.name == n) k1 = true;
-            out += " N:" + hn + "=" + (k1 ? std::string("K1") : probe(c, { "--" + n, "v" }));
+            out += " N:" + hn + "=" + (k1 ? std::string("K1") : probe(c, { "--" + n, "v" }, false));
         }
-        for (auto& hc : letters) out += " L:" + hc + "=" + probe(c, { "-" + vh::unhex(hc), "v" });
+        for (auto& hc : letters) out += " L:" + hc + "=" + probe(c, { "-" + vh::unhex(hc), "v" }, true);
     }
 
     // display order: the option blocks of usage() start with two blanks and a dash
@@ -320,8 +418,10 @@ std::string run_case(const std::vector<std::string>& w)
             if (line.rfind("  -", 0) != 0) continue;
             auto a = line.find("--");
             if (a == std::string::npos) continue;
+            a += 2;
+            if (line.compare(a, 5, "[no-]") == 0) a += 5; // a reversible toggle
             auto e = line.find(' ', a);
-            ord.push_back(line.substr(a + 2, e == std::string::npos ? std::string::npos : e - a - 2));
+            ord.push_back(line.substr(a, e == std::string::npos ? std::string::npos : e - a));
         }
         out += " ; ORD " + vh::wire_strs(ord);
     }
@@ -329,12 +429,15 @@ std::string run_case(const std::vector<std::string>& w)
     for (std::size_t i = 0; i < c.objs.size(); i++)
     {
         auto& o = c.objs[i];
-        std::string def = "-";
-        if (o.kind == 'o') def = static_cast<no::option*>(o.b)->has_default() ? "1" : "0";
-        if (o.kind == 'm') def = static_cast<no::multi_option*>(o.b)->has_default() ? "1" : "0";
-        out += " " + std::to_string(i + 1) + "=" + vh::hex(o.b->short_name()) + "/" + vh::hex(o.b->env()) + "/" +
-               vh::hex(o.b->metavar()) + "/" + def;
+        const no::base* b = o.b; // getters through the const path
+        std::string def = "-", opt = "-";
+        if (o.kind == 'o') def = static_cast<const no::option*>(b)->has_default() ? "1" : "0";
+        if (o.kind == 'm') def = static_cast<const no::multi_option*>(b)->has_default() ? "1" : "0";
+        if (o.kind != 't') opt = b->is_optional() ? "1" : "0";
+        out += " " + std::to_string(i + 1) + "=" + vh::hex(b->short_name()) + "/" + vh::hex(b->env()) + "/" +
+               vh::hex(b->metavar()) + "/" + def + "/" + opt;
     }
+    out += const_paths(c);
     return out;
 }
 } // namespace
